@@ -20,7 +20,8 @@ def plan(tier):
             "revcomp_input_iterators_by_value_and_inexact_hints",
             "alphabet_from_iterators_with_duplicates_and_inexact_hints", "ranktransform_of_alphabet_from_text",
             "alphabet_and_ranktransform_copies_and_input_kinds", "alphabet_set_operations_in_both_orders",
-            "gc_input_iterators_by_value_and_inexact_hints"],
+            "gc_input_iterators_by_value_and_inexact_hints", "orf_min_len_at_and_beyond_2p32",
+            "orf_min_len_largest_value", "alphabet_of_all_256_bytes"],
         "rule": "orf: one run = one Finder (start/stop codon sets, min_len) applied to several sequences; all "
                 "sequences over {A,T,G} up to length 9 (10 thorough) with min_len rotating over 0,1,3,4,5,6, codon "
                 "soups up to 300 symbols for four start/stop sets (standard, three starts/one stop, arbitrary bytes, "
